@@ -68,7 +68,7 @@ pub fn profile(prop: &str, tier: &str) -> Profile {
     }
     let base = Profile {
         name: "base",
-        threads: (2, 5),
+        threads: (2, if thorough { 7 } else { 6 }),
         max_ops: if thorough { 10 } else { 6 },
         weights: cat(&[SENDS, RECVS, HANDLES]),
         caps: caps.clone(),
